@@ -110,6 +110,43 @@ theorem C16_stop_reader_fast (cfg : Searcher.Config) (m : MatcherI) (inp : Bytes
     · show (searchReader cfg m σ none cap ⟨inp, script, 0⟩).result = .err ↔ _
       rw [key.2]; exact hr
 
+open RgVerif.MaxCount in
+/-- **C16, match limit, incremental search of a reader** (`rg -m N [-A a]` on stdin / `--no-mmap` /
+directory traversal; slow path): with the printers' limit as the sink, `search_reader` shows the sink
+exactly its own uninterrupted stream up to the callback at which the limit (plus its trailing context)
+is exhausted, then one `finish` -- it never fetches and searches another buffer after the sink said
+stop -- for every read script and buffer capacity. -/
+theorem C16_maxcount_reader (cfg : Searcher.Config) (m : MatcherI) (inp : Bytes) (script : List Step) (cap : Option Nat)
+    (N A : Nat) (rest : List Event)
+    (hbin : cfg.binary = .none) (hml : cfg.multiLine = false)
+    (hslow : isLineByLineFast cfg m (Core.new cfg true) = false) (hz : NoZero script)
+    (hE : (searchReader cfg m allCont none cap ⟨inp, script, 0⟩).events = Event.begin :: rest) (hnb : NoBegin rest) :
+    let E := (searchReader cfg m allCont none cap ⟨inp, script, 0⟩).events
+    let R := searchReader cfg m (maxCountScript (some N) A E) none cap ⟨inp, script, 0⟩
+    R.result = .ok () ∧
+    match quitIndex N A E with
+    | some k => k + 1 < E.length → ∃ bc bo, R.events = E.take (k + 1) ++ [Event.finish bc bo]
+    | none => R.events = E := by
+  have hmm : multiLineWithMatcher cfg m = false := by simp [multiLineWithMatcher, hml]
+  have key : ∀ τ : Script,
+      (searchReader cfg m τ none cap ⟨inp, script, 0⟩).events = (sliceByLine cfg m τ inp).events ∧
+      (searchReader cfg m τ none cap ⟨inp, script, 0⟩).result = (sliceByLine cfg m τ inp).result := by
+    intro τ
+    unfold searchReader
+    simp only [hmm, Bool.false_eq_true, if_false]
+    exact C02.C02 cfg m τ hbin hslow (lineBufferConfig cfg none cap) rfl
+      (by simp [lineBufferConfig, hbin, BinaryDetection.toLB]) (by simp [lineBufferConfig])
+      (⟨inp, script, 0⟩ : Reader).withBomPeek (withBomPeek_noZero _ hz)
+  have e0 := key allCont
+  rw [e0.1] at hE
+  have h := C16_maxcount cfg m inp N A rest hE hnb
+  simp only at h
+  intro E R
+  show R.result = .ok () ∧ _
+  simp only [R, E, e0.1, (key _).1, (key _).2]
+  exact h
+
+
 /-! Non-vacuity: the hypotheses of `C16_stop_reader` hold for a concrete configuration with context lines,
 a matcher on the slow path, a six-line input read one byte at a time with an interrupted read, and a sink
 that stops at its third callback; the interrupted log is then the 3-entry prefix plus `finish`. -/
